@@ -505,7 +505,7 @@ var hammerBuilders = map[string]func(rng *gen.Rng, w *mon.W) (hot, churn []hamme
 	"C04": func(rng *gen.Rng, w *mon.W) (hot, churn []hammerOp) { return famScalarMult(rng, 8), nil },
 	"C05": func(rng *gen.Rng, w *mon.W) (hot, churn []hammerOp) { return famBaseMult(rng, 16), nil },
 	"C06": func(rng *gen.Rng, w *mon.W) (hot, churn []hammerOp) { return famDecode(rng, 12, 2600) },
-	"C07": func(rng *gen.Rng, w *mon.W) (hot, churn []hammerOp) { return famRecoverVerify(rng, 8), nil },
+	"C07": func(rng *gen.Rng, w *mon.W) (hot, churn []hammerOp) { return famRecoverVerify(rng, 44), nil }, // more hot keys than a small cache holds
 	"C08": func(rng *gen.Rng, w *mon.W) (hot, churn []hammerOp) { return famSign(rng, 8, false), nil },
 	"C10": func(rng *gen.Rng, w *mon.W) (hot, churn []hammerOp) {
 		h, c := famDecode(rng, 4, 1200)
